@@ -479,3 +479,64 @@ class SimNP:
             return real_np.loadtxt(fname, *a, **kw)
         data = self._fs.read_bytes(p)
         return real_np.loadtxt(io.StringIO(data.decode()), *a, **kw)
+
+
+class SimGlob:
+    """Stand-in for the `glob` module over the simulated file system (same matching rules: fnmatch per path component,
+    names starting with a dot only match patterns that start with a dot)."""
+
+    def __init__(self, fs):
+        self._fs = fs
+
+    @staticmethod
+    def escape(pathname):
+        import glob as real_glob
+        return real_glob.escape(pathname)
+
+    @staticmethod
+    def has_magic(s):
+        import glob as real_glob
+        return real_glob.has_magic(s)
+
+    def iglob(self, pathname, *, root_dir=None, dir_fd=None, recursive=False, include_hidden=False):
+        return iter(self.glob(pathname, root_dir=root_dir, recursive=recursive, include_hidden=include_hidden))
+
+    def glob(self, pathname, *, root_dir=None, dir_fd=None, recursive=False, include_hidden=False):
+        import fnmatch
+        import glob as real_glob
+        fs = self._fs
+        fs._seam('fs.glob', short(pathname))
+        pattern = str(pathname)
+        absolute = pattern.startswith('/')
+        base = '/' if absolute else fs.norm(root_dir or '.')
+        parts = [p for p in pattern.split('/') if p not in ('', '.')]
+        current = [base.rstrip('/') or '/']
+        for depth, part in enumerate(parts):
+            last = depth == len(parts) - 1
+            nxt = []
+            for cur in current:
+                if cur not in fs.dirs:
+                    continue
+                pre = cur.rstrip('/') + '/'
+                if not real_glob.has_magic(part):
+                    cand = pre + part
+                    if cand in fs.dirs or (last and cand in fs.files):
+                        nxt.append(cand)
+                    continue
+                names = set()
+                for q in list(fs.files) + list(fs.dirs):
+                    if q.startswith(pre) and q != cur:
+                        names.add(q[len(pre):].split('/')[0])
+                for name in sorted(names):
+                    if name.startswith('.') and not (part.startswith('.') or include_hidden):
+                        continue
+                    if fnmatch.fnmatchcase(name, part):
+                        cand = pre + name
+                        if last or cand in fs.dirs:
+                            nxt.append(cand)
+            current = nxt
+        out = sorted(current)
+        if not absolute:
+            strip = base.rstrip('/') + '/'
+            out = [o[len(strip):] if o.startswith(strip) else o for o in out]
+        return out
